@@ -125,7 +125,7 @@ func extOf(t string) string {
 }
 
 func checkC19(c *Check) {
-	c.Rule = "the built tsh binary is run as a process on generated command lines: all orders of -i/-o/-t pairs with short and long spellings, target lists {bash}, {batch}, {bash,batch}, {batch,bash}, {bash,bash}, {bash,batch,bash}, input names (a.tsh, a.b.tsh, noext, .tsh, 'my prog.tsh', dir/sub/a.tsh; relative and absolute), output directories (., relative, absolute, with blank; with stale outputs and bystander files named like temporaries), inputs lying in the output directory under temporary-looking names, 15 accepted (five of them chosen for bytes that a text-mode rewrite would change: CR LF inside literals, CR, tabs, trailing blanks, CRLF source, no final newline, non-ASCII) and 12 rejected programs (conversion errors in else/default branches, functions and imported files among them), names beginning with a dash or spelled like a switch, bad options, and fault configurations (output path is a directory; strace-injected EACCES on open / ENOSPC on write of the output file); oracle = exit status + recursive before/after stamps (size, mode, mtime, SHA-256) of the work directory + the library's output for the same file and target computed in the harness. Non-trivial = every process run; distinct = command line + program"
+	c.Rule = "the built tsh binary is run as a process on generated command lines: all orders of -i/-o/-t pairs with short and long spellings, target lists {bash}, {batch}, {bash,batch}, {batch,bash}, {bash,bash}, {bash,batch,bash}, input names (a.tsh, a.b.tsh, noext, .tsh, 'my prog.tsh', dir/sub/a.tsh; relative and absolute), output directories (., relative, absolute, with blank; with stale outputs and bystander files named like temporaries), inputs lying in the output directory under temporary-looking names, 15 accepted (five of them chosen for bytes that a text-mode rewrite would change: CR LF inside literals, CR, tabs, trailing blanks, CRLF source, no final newline, non-ASCII) and 12 rejected programs (conversion errors in else/default branches, functions and imported files among them), names beginning with a dash or spelled like a switch, names with leading / trailing white space (with twins), names up to the 255-byte limit, inputs named through symbolic links (to the output path itself: must fail; of another name: output named after the link), input from a pipe (/dev/stdin, one target), bad options, and fault configurations (output path is a directory; strace-injected EACCES on open / ENOSPC on write of the output file); oracle = exit status + recursive before/after stamps (size, mode, mtime, SHA-256) of the work directory + the library's output for the same file and target computed in the harness. Non-trivial = every process run; distinct = command line + program"
 	c.Level = "fault_enumeration"
 	c.Assumptions = []string{"the library (fresh transpiler and converter) is the reference for the bytes", "files written for targets listed before a failing target are allowed to exist (the property speaks of the failing target)", "repeated -i/-o are not asserted (the last one counts)"}
 	progs := c19Programs()
